@@ -1,6 +1,7 @@
 (* C07 -- resizing keeps the first rows and appends fresh default rows.  Statements only. *)
 From Coq Require Import ZArith NArith List Bool String.
 From DM Require Import Base.PyVal Spec.Nf Spec.Table Spec.Ops Proofs.TableFacts Proofs.OpFacts.
+From DM Require Import Model.LTable Gen.KCore Model.Core Proofs.CoreRefine.
 Import ListNotations.
 Open Scope string_scope.
 
@@ -32,6 +33,21 @@ Print Assumptions C07_shrink.
 Theorem C07_resize_keeps_invariant : forall w ti n, wwf w -> wwf (fst (step w (OSetLength ti n))).
 Proof. intros w ti n. apply step_wf. Qed.
 Print Assumptions C07_resize_keeps_invariant.
+
+(* the implementation's _setlength (slicing every column / startid = max+1 and the fresh id list, as
+   regenerated from the source in Gen/KCore.v) is the L0 resize on object graphs satisfying inv_b *)
+Theorem C07_l1_setlength_refines : forall (w : world) ti t value r,
+  inv_b t = true -> (0 <= value)%Z -> get w ti = Some (abs t) ->
+  setlength t value = Some r -> step w (OSetLength ti value) = (put w ti (abs r), OkUnit).
+Proof. exact setlength_refines. Qed.
+Print Assumptions C07_l1_setlength_refines.
+
+Theorem C07_fresh_ids_kernels : forall t value,
+  max_ok (l_rowid t) = true ->
+  fresh_ids t value = iotaN (match ia (l_rowid t) with [] => 0%N | _ => N.succ (maxN (ia (l_rowid t))) end)
+                            (Z.to_nat value - nrows_l t).
+Proof. exact fresh_ids_spec. Qed.
+Print Assumptions C07_fresh_ids_kernels.
 
 Example C07_default_cells : default_cell KMixed = VStr "" /\ default_cell KFloat = VFlt FNan /\ default_cell KInt = VInt 0.
 Proof. repeat split. Qed.
